@@ -115,24 +115,29 @@ TEXT = {
         "technique": "Lean 4 proof (exhaustive kernel decision over byte tables) + differential correspondence incl. raw SIMD kernels",
     },
     "C01": {
-        "level_text": "Proved for every well-formed table with reciprocal extensions and symmetric join, with no bound on size: the seed-and-walk loop of the "
-                      "model visits id-nodes that are duplicate-free and cover exactly the table (a partition), and the code-shaped walk (availability "
-                      "tested before the incoming count, the 'unreachable' panic) never panics and equals the abstract walk (refinement). Not yet "
-                      "proved: the string assembly of node sequences, the recorded-steps clause and the payload fold; these clauses are evaluated "
-                      "as executable predicates on the real crate's nodes for all three entry points, and the model is diffed verbatim with the "
-                      "crate (node order, orientation, cycle cut, payload order via a non-commutative reduction).",
+        "level_text": "Theorem C01_partition, for every well-formed table with reciprocal extensions and symmetric join, no bound on size, K>=1, both "
+                      "strandedness values: the model of compress_kmers never panics, every node has >= K bases, and the canonical k-mers of all "
+                      "node sequences are a permutation of the table's keys (each input k-mer in exactly one node at exactly one offset, nothing "
+                      "foreign). C01_node_assembly: a node's k-mers are the oriented keys of its left path (reversed), seed and right path, each "
+                      "obtained from its neighbour by extending with one base (K-1 overlap), and its payload is the caller's reduction folded "
+                      "over exactly those k-mers' payloads, left path first. Proved by: a 'sealed' invariant over the well-founded walk "
+                      "(ids), refinement of the code-shaped walk to it, and string algebra for the two folds of build_node. The recorded-steps "
+                      "clause in bit form is an executable predicate on the crate's nodes; the model is diffed verbatim with the crate for all "
+                      "three entry points.",
         "design_ref": "DESIGN.md section 6, C01",
-        "level_note": COMMON_NOTE + "Partial: id-level theorem; sequence-level clauses by execution.",
-        "technique": "Lean 4 proof (invariant over a well-founded walk; refinement of the code-shaped walk to an abstract one) + differential correspondence with executable predicates",
+        "level_note": COMMON_NOTE + "The hash map's index order is an input (observed). ExtSym of tables produced by filter_kmers is assumed here (it is C05's "
+                      "exts_are_flanks, not yet proved) and checked executably on every generated table.",
+        "technique": "Lean 4 proof (invariant over a well-founded walk, refinement, list algebra of sequence assembly) + differential correspondence with executable predicates",
     },
     "C02": {
-        "level_text": "Proved (ids): for every well-formed reciprocal table, two k-mer ids share a node iff they are connected by good links (sole "
-                      "extension on both facing sides, distinct non-palindromic k-mers, join accepted) - nodes are exactly the connected components, "
-                      "hence maximal and branch-free; reciprocity of the link relation is proved from reciprocity of extensions. The transfer "
-                      "to node sequences is by execution: components recomputed from the table by label propagation are compared with the crate's nodes.",
+        "level_text": "Theorem C02_components_seq, same quantifier as C01: two table k-mers occur (canonically) among the k-mers of the same node sequence "
+                      "iff they are connected by a chain of good links (sole extension on both facing sides, distinct, non-palindromic when "
+                      "unstranded, join accepted) - nodes are exactly the connected components, hence maximal and branch-free. Rests on the id-level "
+                      "components theorem ('sealed' invariant), reciprocity of links from reciprocity of extensions, and C01's node assembly. "
+                      "Independently, components recomputed from the table by label propagation are compared with the crate's nodes.",
         "design_ref": "DESIGN.md section 6, C02",
-        "level_note": COMMON_NOTE + "Partial: as C01.",
-        "technique": "Lean 4 proof ('sealed' invariant => nodes = connected components) + differential correspondence with executable predicate",
+        "level_note": COMMON_NOTE + "Symmetric join is a hypothesis (both shipped specs satisfy it).",
+        "technique": "Lean 4 proof ('sealed' invariant => nodes = connected components; transfer to sequences) + differential correspondence with executable predicate",
     },
     "C05": {
         "level_text": "Proved: the bucket-pass planning tiles the 256 buckets exactly once for every memory budget, at most 256 passes, CountFilter "
